@@ -86,6 +86,10 @@ def h_regress(ctx):
             mu2 = [e.real('mm_%d' % i) for i in range(p)]
             d2 = nd.NormalDistribution(np.array(mu2), np.array(Sg))
             cl.append(('mse does not depend on the means', d2.mse(y, list(S)) == m))
+            # the returned coefficient array belongs to the caller: a second call returns another array
+            c_again, i_again = dist.regress(y, _style(S, style))
+            cl.append(('a second regress() call returns a fresh coefficient array (not storage kept by the object)',
+                       not np.shares_memory(c_again, coefs)))
             # order invariance
             for perm in itertools.permutations(S):
                 if list(perm) != list(S):
@@ -273,6 +277,14 @@ def replay(rec):
                 return abs(got) <= 1e-9 * scale
             return abs(got - want) <= 1e-6 * max(abs(got), abs(want))
         bad = any(not C05._close(r[1][k], b[k], 1e-6) for k in range(p)) or not C05._close(r[2], icpt, 1e-6) or not close_mse(r[3], mse)
+        if not bad:
+            import numpy
+            d0 = C05._np_dist(inp)
+            c1, _i1 = d0.regress(y, _np_xs(Xs, inp['style']))
+            c1 += 7.0                  # the caller may do what it likes with the returned array
+            c2, _i2 = d0.regress(y, _np_xs(Xs, inp['style']))
+            if numpy.shares_memory(c1, c2) or any(not C05._close(c2[k], b[k], 1e-6) for k in range(p)) or not close_mse(d0.mse(y, _np_xs(Xs, inp['style'])), mse):
+                bad = True
         if not bad:
             # order invariance / mean independence on the real code
             import numpy
